@@ -95,26 +95,27 @@ def optAll (l : List (Option (NS × Path))) : List (NS × Path) := l.filterMap i
 zero-length content can no longer be recognised as a link of anything — after a reopen each such name is a
 content of its own.  UDF names of one content share a File Entry on disc and therefore stay together.
 Nothing else changes. -/
+def reopenStep (s : State) (acc : List Entry × List Blob × Nat × List (Nat × Nat)) (e : Entry) :
+    List Entry × List Blob × Nat × List (Nat × Nat) :=
+  match e.node with
+  | .file b =>
+    match s.blobs.find? (·.id = b) with
+    | some bl =>
+      if bl.len = 0 then
+        if e.ns = .udf then
+          match acc.2.2.2.find? (·.1 = b) with
+          | some p => (acc.1 ++ [{ e with node := .file p.2 }], acc.2.1, acc.2.2.1, acc.2.2.2)
+          | none => (acc.1 ++ [{ e with node := .file acc.2.2.1 }], acc.2.1 ++ [{ id := acc.2.2.1, cid := bl.cid, len := 0 }],
+                     acc.2.2.1 + 1, acc.2.2.2 ++ [(b, acc.2.2.1)])
+        else (acc.1 ++ [{ e with node := .file acc.2.2.1 }], acc.2.1 ++ [{ id := acc.2.2.1, cid := bl.cid, len := 0 }],
+              acc.2.2.1 + 1, acc.2.2.2)
+      else (acc.1 ++ [e], acc.2.1, acc.2.2.1, acc.2.2.2)
+    | none => (acc.1 ++ [e], acc.2.1, acc.2.2.1, acc.2.2.2)
+  | _ => (acc.1 ++ [e], acc.2.1, acc.2.2.1, acc.2.2.2)
+
 def reopenState (s : State) : State :=
-  let step (acc : List Entry × List Blob × Nat × List (Nat × Nat)) (e : Entry) :
-      List Entry × List Blob × Nat × List (Nat × Nat) :=
-    let (es, bs, nxt, udfMap) := acc
-    match e.node with
-    | .file b =>
-      match s.blobs.find? (·.id = b) with
-      | some bl =>
-        if bl.len = 0 then
-          if e.ns = .udf then
-            match udfMap.find? (·.1 = b) with
-            | some (_, nb) => (es ++ [{ e with node := .file nb }], bs, nxt, udfMap)
-            | none => (es ++ [{ e with node := .file nxt }], bs ++ [{ id := nxt, cid := bl.cid, len := 0 }], nxt + 1,
-                       udfMap ++ [(b, nxt)])
-          else (es ++ [{ e with node := .file nxt }], bs ++ [{ id := nxt, cid := bl.cid, len := 0 }], nxt + 1, udfMap)
-        else (es ++ [e], bs, nxt, udfMap)
-      | none => (es ++ [e], bs, nxt, udfMap)
-    | _ => (es ++ [e], bs, nxt, udfMap)
-  let (es, newBlobs, nxt, _) := s.entries.foldl step ([], [], s.next, [])
-  { s with entries := es, blobs := s.blobs.filter (fun b => b.len ≠ 0) ++ newBlobs, next := nxt }
+  let r := s.entries.foldl (reopenStep s) ([], [], s.next, [])
+  { s with entries := r.1, blobs := s.blobs.filter (fun b => b.len ≠ 0) ++ r.2.1, next := r.2.2.1 }
 
 def step (s : State) : Op → Option State
   | .addFp a =>
